@@ -8,6 +8,8 @@ CONSTANTS
   LitMenu <- AllLits
   InMenu = {1, 2, 3, 4}
   Trips = {0, 1, 2, 3}
+  FnMenu = {1, 2, 3, 4}
+  LitOnly = FALSE
   Sim = TRUE
 INVARIANT DesignOK
 INVARIANT DeviationsExplain
